@@ -71,11 +71,24 @@ def children(x):
     return []
 
 
+def holds_mutable(x, depth=0):
+    if depth > 12:
+        return False
+    if isinstance(x, tuple):
+        return any(holds_mutable(v, depth + 1) for v in x)
+    return not is_immutable(x)
+
+
 def walk(path, x, out, depth=0, is_root=False):
     """Append (path, object) for every *mutable* object reachable from x (tree unfolding)."""
     if depth > 12:
         return
-    if isinstance(x, tuple):   # immutable container: not a node, but its elements may be mutable
+    if isinstance(x, tuple):
+        # immutable itself; a node (with edges to its elements) iff it holds, at any depth, a mutable object —
+        # `copy.deepcopy` then has to build a new tuple around the copied elements
+        if not holds_mutable(x):
+            return
+        out.append((path, x))
         for k, v in children(x):
             walk(path + '/' + k, v, out, depth + 1)
         return
@@ -219,7 +232,7 @@ def class_command(name, cls, keep):
 
 def navigate(x, path):
     for k in path:
-        if isinstance(x, (list, np.ndarray)):
+        if isinstance(x, (list, tuple, np.ndarray)):
             x = x[int(k)]
         elif isinstance(x, dict):
             x = x[k] if k in x else x[int(k)]
@@ -228,6 +241,84 @@ def navigate(x, path):
         else:
             x = x.__dict__[k]
     return x
+
+
+ATTR_SHAPES = ['list', 'dict', 'nested-list', 'tuple-of-lists', 'namedtuple-with-dict', 'tuple-of-ndarray',
+               'dict-of-lists']
+Bounds = None
+
+
+def _namedtuple():
+    global Bounds
+    if Bounds is None:
+        import collections
+        Bounds = collections.namedtuple('Bounds', ['label', 'table'])
+    return Bounds
+
+
+def attr_spec(shape, tag):
+    """A nested attribute value as a JSON-able spec."""
+    L = lambda *xs: {'t': 'list', 'items': list(xs)}   # noqa: E731
+    if shape == 'list':
+        return L(tag + 'u', tag + 'v')
+    if shape == 'dict':
+        return {'t': 'dict', 'entries': [['k1', tag + 'a'], ['k2', tag + 'b']]}
+    if shape == 'nested-list':
+        return L(L(tag + 'a'), L(tag + 'b', tag + 'c'))
+    if shape == 'tuple-of-lists':
+        return {'t': 'tuple', 'items': [L(tag + 'lo'), L(tag + 'hi')]}
+    if shape == 'namedtuple-with-dict':
+        return {'t': 'namedtuple', 'items': [tag + 'label', {'t': 'dict', 'entries': [['k', tag + 'v']]}]}
+    if shape == 'tuple-of-ndarray':
+        return {'t': 'tuple', 'items': [{'t': 'array', 'n': 2}, {'t': 'array', 'n': 3}]}
+    if shape == 'dict-of-lists':
+        return {'t': 'dict', 'entries': [['p', L(tag + 'x')], ['q', L()]]}
+    raise ValueError(shape)
+
+
+def build_value(spec):
+    if not isinstance(spec, dict):
+        return spec
+    t = spec['t']
+    if t == 'list':
+        return [build_value(v) for v in spec['items']]
+    if t == 'dict':
+        return {k: build_value(v) for k, v in spec['entries']}
+    if t == 'tuple':
+        return tuple(build_value(v) for v in spec['items'])
+    if t == 'namedtuple':
+        return _namedtuple()(*[build_value(v) for v in spec['items']])
+    if t == 'array':
+        return np.zeros(spec['n'])
+    raise ValueError(t)
+
+
+def spec_children(spec):
+    t = spec['t']
+    if t == 'dict':
+        return [(k, v) for k, v in spec['entries']]
+    if t == 'array':
+        return [(str(i), 0) for i in range(spec['n'])]
+    return [(str(i), v) for i, v in enumerate(spec['items'])]
+
+
+def spec_nodes(spec, path, key):
+    """Model-side construction plan, outermost first: [{path, key, kind, imm}]; plus the paths (relative to the
+    object) of the inner lists / dicts / arrays, for later in-place edits."""
+    kind = {'list': 'list', 'dict': 'dict', 'tuple': 'tuple', 'namedtuple': 'tuple', 'array': 'array'}[spec['t']]
+    node = {'path': path, 'key': key, 'kind': kind, 'imm': []}
+    nodes, inner = [node], {'list': [], 'dict': [], 'array': []}
+    if kind in inner:
+        inner[kind].append(path + [key])
+    for k, v in spec_children(spec):
+        if isinstance(v, dict):
+            sub_nodes, sub_inner = spec_nodes(v, path + [key], k)
+            nodes += sub_nodes
+            for kk in inner:
+                inner[kk] += sub_inner[kk]
+        else:
+            node['imm'].append([k, v])
+    return nodes, inner
 
 
 ASSIGN_INPLACE = {'attr': True, 'item': True, 'replace_values': True, 'view': True, 'astype': True, 'values': True,
@@ -263,6 +354,14 @@ def apply_op(m, op, world=None):
         assign_from(m, world.roots[op['from']], op['x'], op['fx'], op['via'])
     elif o == 'assignValues':
         m.values = world.roots[op['from']].values
+    elif o == 'buildAttr':
+        m.add_attribute(op['x'], build_value(op['spec']))
+    elif o == 'setAt':
+        target = navigate(m, op['f'])
+        if isinstance(target, dict):
+            target[op['k']] = op['v']
+        else:
+            target[int(op['k'])] = op['v']
     elif o == 'setCell':
         m.__dict__['_' + op['x']][op['i']] = op['v']
     elif o == 'rebind':
@@ -334,6 +433,8 @@ class RealWorld:
             self.roots[cmd['r']] = COPY_ROUTES[cmd.get('route', 'method')](self.roots[cmd['of']])
         elif c == 'op':
             apply_op(self.classes[cmd['r']] if cmd['r'] in self.classes else self.roots[cmd['r']], cmd['op'], self)
+        elif c == 'subadd':
+            self.roots[cmd['r']].submodels[cmd['key']] = self.roots[cmd['of']]
         elif c == 'sub':
             self.roots[cmd['r']] = self.roots[cmd['of']].submodels[cmd['key']]
         elif c == 'snap':
